@@ -391,6 +391,10 @@ class FnSplicer:
             want = anchor.split()
             if not any([t.text for t in toks[k:k + len(want)]] == want for k in range(body_open + 1, body_close - len(want) + 1)):
                 raise ExtractError('lost anchor: `%s` in %s' % (anchor, tag))
+        # ... and tokens it is NOT written for (say a loop-free annotation set: `loop`, `while`, `for`)
+        for word in (spec.get('forbids') or []):
+            if any(t.text == word and t.kind == 'ident' for t in toks[body_open + 1:body_close]):
+                raise ExtractError('lost anchor: `%s` present in %s (annotation set not written for it)' % (word, tag))
         # 'ghost-entry-snapshot': `let ghost verif_entry_<p> = <p>;` at the start of the body names the entry value
         # of a by-value `mut` parameter for loop invariants (ghost code: erased, no effect on execution)
         for pname in (spec.get('entry_snapshots') or []):
